@@ -1139,8 +1139,10 @@ func (c *DefaultCtx) Path(override ...string) string {
 
 		// Set new path to request context
 		c.fasthttp.Request.URI().SetPath(c.pathOriginal)
-		// Prettify path
+		// Prettify path. What Path() and Params() handed out before refers to the current buffer:
+		// the new path gets a buffer of its own so that those values stay what they were
 		oldTreePathHash := c.treePathHash
+		c.path = nil
 		c.configDependentPaths()
 		if c.route != nil && c.treePathHash != oldTreePathHash {
 			// indexRoute points into the route list of the old path, continue
